@@ -782,6 +782,44 @@ def _digit_font_pdf(ttf, null_codes, shown):
         _pdf_stream(b"", cmap)])
 
 
+_ODF_NS = ('xmlns:office="urn:oasis:names:tc:opendocument:xmlns:office:1.0" '
+           'xmlns:text="urn:oasis:names:tc:opendocument:xmlns:text:1.0" '
+           'xmlns:table="urn:oasis:names:tc:opendocument:xmlns:table:1.0"')
+
+
+def _odf_package(kind, text, meta_title=None):
+    """OpenDocument package (ODF 1.2 part 3: mimetype first and stored, content.xml, manifest); meta.xml is an
+    optional member and is left out unless a title is given"""
+    import zipfile
+    mime = {"odt": "application/vnd.oasis.opendocument.text",
+            "ods": "application/vnd.oasis.opendocument.spreadsheet"}[kind]
+    if kind == "odt":
+        body = f"<office:text><text:p>{text}</text:p></office:text>"
+    else:
+        body = ('<office:spreadsheet><table:table table:name="S1"><table:table-row>'
+                f'<table:table-cell office:value-type="string"><text:p>{text}</text:p></table:table-cell>'
+                "</table:table-row></table:table></office:spreadsheet>")
+    content = (f'<?xml version="1.0" encoding="UTF-8"?><office:document-content {_ODF_NS} office:version="1.2">'
+               f"<office:body>{body}</office:body></office:document-content>")
+    members = [("content.xml", content)]
+    if meta_title is not None:
+        members.append(("meta.xml", f'<?xml version="1.0" encoding="UTF-8"?><office:document-meta {_ODF_NS} '
+                                    'xmlns:dc="http://purl.org/dc/elements/1.1/"><office:meta>'
+                                    f"<dc:title>{meta_title}</dc:title></office:meta></office:document-meta>"))
+    manifest = ('<?xml version="1.0" encoding="UTF-8"?><manifest:manifest '
+                'xmlns:manifest="urn:oasis:names:tc:opendocument:xmlns:manifest:1.0" manifest:version="1.2">'
+                f'<manifest:file-entry manifest:full-path="/" manifest:media-type="{mime}"/>' +
+                "".join(f'<manifest:file-entry manifest:full-path="{n}" manifest:media-type="text/xml"/>'
+                        for n, _ in members) + "</manifest:manifest>")
+    buf = io.BytesIO()
+    with zipfile.ZipFile(buf, "w", zipfile.ZIP_DEFLATED) as zf:
+        zf.writestr(zipfile.ZipInfo("mimetype"), mime)
+        for n, c in members:
+            zf.writestr(n, c)
+        zf.writestr("META-INF/manifest.xml", manifest)
+    return buf.getvalue()
+
+
 _DOCS = None
 
 
@@ -811,6 +849,9 @@ def _docs():
             d[name] = b.getvalue()
     finally:
         P.reset()
+    d["odt_nometa"] = _odf_package("odt", "text of the meta-less text document")
+    d["ods_nometa"] = _odf_package("ods", "cell of the meta-less spreadsheet")
+    d["odt_meta"] = _odf_package("odt", "text of the titled document", meta_title="Titled")
     r = _res_dir()
     for name, rel in (("7z", "archives/test_archive.7z"), ("zip", "archives/sample.zip"), ("epub", "epub/sample.epub"),
                       ("odt", "open_office/headings.odt"), ("pdf_sample", "pdf/sample.pdf")):
@@ -827,24 +868,69 @@ def _json_default(o):
 
 
 _ADDR = None
+_COLLECT = None      # when a list: every batch of result objects that was digested is appended (K3 clause b)
+META_FIELDS = ("filename", "file_extension", "file_path", "folder_path")
 
 
-def _digest(objs, raw=False):
-    """digest of to_json() per unit.  Unless ``raw``, the object address inside the text pypdf prints for an
-    indirect reference ('IndirectObject(16, 0, 140028663430320)', which the PDF extractor copies into
-    PdfImage.color_space) is masked: that defect is K3d's subject and would otherwise make every history look
-    different."""
+def _observe_one(o, raw=False):
+    """what a caller can see of one result: to_json() and the file metadata of get_metadata()"""
     global _ADDR
     import re
     if _ADDR is None:
         _ADDR = re.compile(r"IndirectObject\((\d+), (\d+), \d+\)")
-    out = []
-    for o in objs:
-        txt = json.dumps(o.to_json(), sort_keys=True, default=_json_default)
-        if not raw:
-            txt = _ADDR.sub(r"IndirectObject(\1, \2, *)", txt)
-        out.append(hashlib.sha256(txt.encode()).hexdigest()[:12])
-    return out
+    txt = json.dumps(o.to_json(), sort_keys=True, default=_json_default)
+    try:
+        md = o.get_metadata()
+        meta = [getattr(md, f, None) for f in META_FIELDS]
+    except Exception as e:
+        meta = ["get_metadata raised " + type(e).__name__]
+    txt += "|" + json.dumps(meta, default=_json_default)
+    if not raw:
+        txt = _ADDR.sub(r"IndirectObject(\1, \2, *)", txt)
+    return hashlib.sha256(txt.encode()).hexdigest()[:12]
+
+
+def _digest(objs, raw=False):
+    """digest of to_json() + file metadata per unit.  Unless ``raw``, the object address inside the text pypdf
+    prints for an indirect reference ('IndirectObject(16, 0, 140028663430320)', which the PDF extractor copies
+    into PdfImage.color_space) is masked: that defect is K3d's subject and would otherwise make every history
+    look different."""
+    objs = list(objs)
+    if _COLLECT is not None:
+        _COLLECT.append(objs)
+    return [_observe_one(o, raw) for o in objs]
+
+
+def _in_child(fn):
+    """run ``fn()`` in a forked child of this worker and return its (picklable) result: the worker itself never
+    extracts anything, so every history starts from a process that has extracted nothing - including state this
+    check does not know about (a module-level object shared between results, say)."""
+    import pickle
+    import traceback
+    r, w = os.pipe()
+    pid = os.fork()
+    if pid == 0:
+        try:
+            os.close(r)
+            gc.freeze()     # the child's collections look at its own objects only (no copy-on-write of the heap)
+            try:
+                out = ("ok", fn())
+            except BaseException as e:
+                out = ("err", "%s: %s\n%s" % (type(e).__name__, e, traceback.format_exc(limit=6)))
+            with os.fdopen(w, "wb") as f:
+                pickle.dump(out, f)
+        finally:
+            os._exit(0)
+    os.close(w)
+    with os.fdopen(r, "rb") as f:
+        data = f.read()
+    os.waitpid(pid, 0)
+    if not data:
+        raise RuntimeError("child process died without a result")
+    out = pickle.loads(data)
+    if out[0] == "err":
+        raise RuntimeError("child process: " + out[1])
+    return out[1]
 
 
 class _Fault(Exception):
@@ -914,6 +1000,11 @@ def _run_entry(ctx, name):
                 return ("ok", _digest(list(epub_extractor.read_epub(io.BytesIO(d["epub"]), "dir/a.epub"))))
             if name == "odt":
                 return ("ok", _digest(list(odt_extractor.read_odt(io.BytesIO(d["odt"]), "dir/a.odt"))))
+            if name in ODF_ENTRIES:
+                from sharepoint2text.parsing import router
+                doc, path = ODF_ENTRIES[name]
+                fn = router.get_extractor("x." + doc[:3])
+                return ("ok", _digest(list(fn(io.BytesIO(d[doc]), path))))
             raise KeyError(name)
         except ExtractionError as e:
             return ("extraction-error", type(e).__name__, type(e.__cause__).__name__ if e.__cause__ else None)
@@ -921,22 +1012,32 @@ def _run_entry(ctx, name):
             return ("other-exception", type(e).__name__, str(e)[:80])
 
 
+# meta-less OpenDocument packages of two kinds, each extracted with a path and from a bare stream
+ODF_ENTRIES = {"odt_nometa_path": ("odt_nometa", "first/a.odt"), "odt_nometa_nopath": ("odt_nometa", None),
+               "ods_nometa_path": ("ods_nometa", "second/b.ods"), "ods_nometa_nopath": ("ods_nometa", None),
+               "odt_meta_path": ("odt_meta", "third/c.odt"), "odt_meta_nopath": ("odt_meta", None)}
+
 VOCAB_QUICK = ["pdf", "pdf_fault_once", "pdf_fault_always", "pdf_cut", "pdf_aes256r5", "pdf_aes128", "pdf_json",
-               "pdf_digits_a", "pdf_digits_b", "7z", "7z_close", "7z_extract_fault", "zip", "epub"]
-VOCAB_THOROUGH = VOCAB_QUICK + ["pdf_rc4", "pdf_aes128_pw", "7z_drop", "7z_throw", "odt", "pdf_sample"]
+               "pdf_digits_a", "pdf_digits_b", "7z", "7z_close", "7z_extract_fault",
+               "odt_nometa_path", "odt_nometa_nopath", "ods_nometa_path", "ods_nometa_nopath"]
+VOCAB_CORE = ["pdf", "pdf_fault_once", "pdf_aes256r5", "pdf_aes128", "pdf_digits_a", "pdf_digits_b", "7z_close",
+              "7z_extract_fault", "odt_nometa_path", "odt_nometa_nopath"]
+VOCAB_THOROUGH = VOCAB_QUICK + ["zip", "epub", "pdf_rc4", "pdf_aes128_pw", "7z_drop", "7z_throw", "odt", "pdf_sample",
+                                "odt_meta_path", "odt_meta_nopath"]
 
 _BASE = {}
 
 
 def _baseline(ctx, P, name):
-    """result of the entry in a process that has done nothing else (state reset to the snapshot
-    before and after); computed twice to make sure it is a function of the document alone"""
+    """result of the entry in a process that has extracted nothing else (a forked child of this worker, which
+    itself never extracts); computed twice there to make sure it is a function of the document alone"""
     if name not in _BASE:
-        P.reset()
-        a = _run_entry(ctx, name)
-        P.reset()
-        b = _run_entry(ctx, name)
-        P.reset()
+        def twice():
+            P.reset()
+            a = _run_entry(ctx, name)
+            P.reset()
+            return a, _run_entry(ctx, name)
+        a, b = _in_child(twice)
         if a != b:
             raise RuntimeError(f"entry {name} is not deterministic in isolation: {a} / {b}")
         _BASE[name] = a
@@ -959,12 +1060,17 @@ def k3_residue(ctx):
     N = ctx.params["N"]
     first = ctx.params.get("first")
     n = 1 + ctx.choice("entries_minus_1", N)
+    # quick: every single entry and every ordered pair of the vocabulary, triples over the core entries (one
+    # representative of every state-touching mechanism); thorough: every triple of the larger vocabulary
+    pool = VOCAB_CORE if (n == 3 and ctx.params.get("triples", "all") == "core") else vocab
     seq = []
     for i in range(n):
         if i == 0 and first is not None:
+            if first not in pool:
+                ctx.assume(False)
             seq.append(first)
         else:
-            seq.append(vocab[ctx.choice(f"entry{i}", len(vocab))])
+            seq.append(pool[ctx.choice(f"entry{i}", len(pool))])
     if (not ctx.perturb) and K3_FINDING in (ctx.params.get("known_active") or ()):
         # class of the known finding: a document that needs the AES fallback only after the reader
         # was constructed (AES-128), extracted after a document that installed the fallback
@@ -980,26 +1086,42 @@ def k3_residue(ctx):
             ctx.assume(False)
     _docs()
     base = {e: _baseline(ctx, P, e) for e in set(seq)}
-    scratch = tempfile.mkdtemp(prefix="c15-k3-")
-    results = []
-    try:
-        P.reset()
-        gc.collect()
-        config_before = ae._config
-        fds_before = _fd_count()
-        with ctx.stub(tempfile, tempdir=scratch):
-            for e in seq:
-                results.append(_run_entry(ctx, e))
+
+    def run_sequence():
+        global _COLLECT
+        scratch = tempfile.mkdtemp(prefix="c15-k3-")
+        results, kept, at_return = [], [], []
+        try:
+            P.reset()
             gc.collect()
-        fds_after = _fd_count()
-        left_files = sorted(os.listdir(scratch))
-        charmap = P.changed(CHARMAP_MODULES)
-        crypto = P.changed(CRYPTO_MODULES)
-        lib_changed = _state_diff(P.pe_state, _lib_state(_pe()))
-        config_after = ae._config
-    finally:
-        P.reset()
-        shutil.rmtree(scratch, ignore_errors=True)
+            config_before = ae._config
+            fds_before = _fd_count()
+            with ctx.stub(tempfile, tempdir=scratch):
+                for e in seq:
+                    _COLLECT = []
+                    try:
+                        results.append(_run_entry(ctx, e))
+                    finally:
+                        batches, _COLLECT = _COLLECT, None
+                    objs = [o for b in batches for o in b]
+                    kept.append(objs)
+                    at_return.append([_observe_one(o) for o in objs])     # snapshot at return time
+                # (b) what was handed out earlier is still what it was when it was handed out
+                changed_later = [i for i, objs in enumerate(kept)
+                                 if [_observe_one(o) for o in objs] != at_return[i]]
+                del kept, objs, batches
+                gc.collect()
+            return {"results": results, "changed_later": changed_later,
+                    "fds": (fds_before, _fd_count()), "left_files": sorted(os.listdir(scratch)),
+                    "charmap": P.changed(CHARMAP_MODULES), "crypto": P.changed(CRYPTO_MODULES),
+                    "lib_changed": _state_diff(P.pe_state, _lib_state(_pe())),
+                    "config_same": ae._config is config_before}
+        finally:
+            shutil.rmtree(scratch, ignore_errors=True)
+
+    obs = _in_child(run_sequence)
+    results, crypto, charmap, lib_changed = obs["results"], obs["crypto"], obs["charmap"], obs["lib_changed"]
+    left_files, (fds_before, fds_after) = obs["left_files"], obs["fds"]
     if crypto:
         # one-way by design (DESIGN C15/K3): recorded with its trigger, not judged by itself
         ctx.note("observation:one-way-aes-fallback-patch-installed (trigger: PdfReader() raises DependencyError "
@@ -1014,7 +1136,11 @@ def k3_residue(ctx):
         ctx.require(not crypto, "twin-crypto")
     ctx.require(not charmap, "pypdf-char-map-attribute-not-restored", residue=charmap, sequence=seq)
     ctx.require(not lib_changed, "pdf-extractor-module-state-not-restored", changed=lib_changed, sequence=seq)
-    ctx.require(config_after is config_before, "archive-configuration-changed", sequence=seq)
+    if ctx.perturb == "expect_earlier_results_to_change":
+        ctx.require(bool(obs["changed_later"]), "twin-aliasing")
+    ctx.require(not obs["changed_later"], "earlier-result-changed-by-later-extraction",
+                positions=obs["changed_later"], entries=[seq[i] for i in obs["changed_later"]], sequence=seq)
+    ctx.require(obs["config_same"], "archive-configuration-changed", sequence=seq)
     ctx.require(not left_files, "temporary-files-left-behind", left=left_files[:5], sequence=seq)
     ctx.require(fds_after == fds_before, "open-handles-left-behind", before=fds_before, after=fds_after, sequence=seq)
 
@@ -1024,7 +1150,8 @@ K3D_FINDING = "C15-pdf-image-color-space-carries-object-address"
 
 def _k3d_documents():
     import glob
-    docs = [("doc:" + n, None) for n in ("pdf", "pdf_digits_a", "pdf_aes256r5", "pdf_rc4", "7z", "zip", "epub", "odt")]
+    docs = [("doc:" + n, None) for n in ("pdf", "pdf_digits_a", "pdf_aes256r5", "pdf_rc4", "7z", "zip", "epub", "odt",
+                                            "odt_nometa_path", "ods_nometa_nopath")]
     docs += [("file:" + os.path.relpath(f, _res_dir()), f)
              for f in sorted(glob.glob(os.path.join(_res_dir(), "pdf", "*.pdf")))]
     return docs
@@ -1053,7 +1180,8 @@ def k3d_same_document_twice(ctx):
             return ("extraction-error", type(e).__name__)
         finally:
             P.reset()
-    a, b = once(), once()
+    _docs()
+    a, b = _in_child(lambda: (once(), once()))
     if ctx.perturb == "expect_two_runs_to_differ":
         ctx.require(a != b, "twin-determinism")
     ctx.require(a == b, "same-document-extracted-twice-gives-different-results", document=name, masked=masked,
@@ -1074,7 +1202,7 @@ def _k3d_parts(tier):
 
 def _k3_parts(tier):
     if tier == "quick":
-        return [{"N": 3, "vocab": "quick", "first": e} for e in VOCAB_QUICK]
+        return [{"N": 3, "vocab": "quick", "triples": "core", "first": e} for e in VOCAB_QUICK]
     return [{"N": 3, "vocab": "thorough", "first": e} for e in VOCAB_THOROUGH]
 
 
@@ -1158,12 +1286,16 @@ KERNELS = [
                     "registry state before the call"],
            outside=["purity of the undecorated router functions (C07)", "the process-wide mimetypes database"]),
     Kernel("K3", "sequences of <=3 real extractions incl. failing documents, faults injected inside the patched "
-                 "char-map builder and abandoned 7z generators: each result == isolated baseline; pypdf char-map "
-                 "attributes, archive configuration, temp root and fd count unchanged",
+                 "char-map builder, abandoned 7z generators, meta-less ODF packages with and without a path: each "
+                 "result (to_json + file metadata) == baseline from a process that extracted nothing else; results "
+                 "returned earlier are unchanged at the end; pypdf char-map attributes, archive configuration, temp "
+                 "root and fd count unchanged",
            k3_residue, targets=_t_k3, parts=_k3_parts, strength="structure",
-           perturb=[("expect_first_entrys_result", {"first": "pdf"}), ("expect_crypto_untouched", {"first": "pdf_aes256r5"})],
-           choices=["sequence length", "entry at each position from the vocabulary (14 quick / 20 thorough)"],
-           stubs=["tempfile.tempdir -> private scratch root", "fault entries: _patch_font_digit_map / "
+           perturb=[("expect_first_entrys_result", {"first": "pdf"}), ("expect_crypto_untouched", {"first": "pdf_aes256r5"}),
+                    ("expect_earlier_results_to_change", {"first": "odt_nometa_path"})],
+           choices=["sequence length", "entry at each position (quick: singles and ordered pairs of 16 entries, triples of 10 core entries; thorough: triples of 26)"],
+           stubs=["every sequence and every baseline runs in a forked child of the worker (the worker never extracts)",
+                  "tempfile.tempdir -> private scratch root", "fault entries: _patch_font_digit_map / "
                   "SevenZipFile.extractall raise as stated by the entry name"],
            assumptions=["the one-way AES fallback patch of pypdf._crypt_providers/_encryption is by design: its "
                         "installation is recorded as an observation (notes), only its effect on results is judged"],
@@ -1182,7 +1314,8 @@ META = {
                   "up to 3 (4) concurrent instances with failing bodies, on the installed pypdf and on both other "
                   "module layouts; the font-feature memo is executed on symbolic glyph-id lists and the AES round-key "
                   "LRU on fully symbolic keys (the solver decides which requests coincide) and each answer is compared "
-                  "with the unmemoised computation; all sequences of up to 3 real extractions from a 14-entry "
+                  "with the unmemoised computation; all singles and ordered pairs of a 16-entry and all triples of a 10-entry (thorough: all "
+                  "triples of a 26-entry) "
                   "vocabulary (faults, truncated and encrypted PDFs, abandoned 7z generators) are compared per "
                   "document with an isolated baseline and the patched pypdf attributes, the PDF extractor's module-level "
                   "bookkeeping, archive configuration, temp root and fd count are compared with a snapshot; every PDF "
